@@ -1,3 +1,507 @@
-(* C15 - proofs (in progress) *)
+(* C15 - proofs about the model of C15_Model and soundness of the checkers of
+   C15_Check. *)
 From HV Require Import Prelude Stats C15_Model C15_Check.
-Lemma placeholder_true : True. Proof. exact I. Qed.
+From Coq Require Import DecimalString DecimalZ Ascii FinFun.
+From Coq Require String.
+Open Scope Z_scope.
+
+(* ---------- names ---------------------------------------------------------- *)
+
+Lemma name_eqb_spec a b : name_eqb a b = true <-> a = b.
+Proof. apply list_eqb_spec. intros; apply Z.eqb_eq. Qed.
+
+Lemma mem_In x l : mem x l = true <-> In x l.
+Proof.
+  unfold mem. rewrite existsb_exists. split.
+  - intros [y [Hy He]]. apply name_eqb_spec in He. subst. exact Hy.
+  - intro H. exists x. split; [exact H|]. apply name_eqb_spec. reflexivity.
+Qed.
+
+Lemma mem_false_not_In x l : mem x l = false <-> ~ In x l.
+Proof.
+  split.
+  - intros H Hin. apply mem_In in Hin. congruence.
+  - intro H. destruct (mem x l) eqn:E; [|reflexivity]. apply mem_In in E. contradiction.
+Qed.
+
+Lemma map_inj {A B} (f : A -> B) : (forall x y, f x = f y -> x = y) ->
+  forall l l', map f l = map f l' -> l = l'.
+Proof.
+  intros Hf l. induction l as [|a r IH]; intros [|b s] H; cbn in H; try discriminate; [reflexivity|].
+  inversion H as [[H1 H2]]. apply Hf in H1. apply IH in H2. subst. reflexivity.
+Qed.
+
+(* Python's str(int) is injective (here: proved for the decimal printer used) *)
+Lemma dec_inj a b : dec a = dec b -> a = b.
+Proof.
+  unfold dec. intro H.
+  apply map_inj in H.
+  - apply (f_equal String.string_of_list_ascii) in H.
+    rewrite !String.string_of_list_ascii_of_string in H.
+    apply (f_equal NilEmpty.int_of_string) in H. rewrite !NilEmpty.isi in H.
+    inversion H as [H1]. apply (f_equal Z.of_int) in H1. rewrite !of_to in H1. exact H1.
+  - intros x y Hxy. apply N2Z.inj in Hxy. apply (f_equal ascii_of_N) in Hxy.
+    rewrite !ascii_N_embedding in Hxy. exact Hxy.
+Qed.
+
+Lemma suffixed_inj nm a b : suffixed nm a = suffixed nm b -> a = b.
+Proof.
+  unfold suffixed. intro H. apply app_inv_head in H. inversion H as [H1]. apply dec_inj. exact H1.
+Qed.
+
+Lemma suffixed_neq nm c : suffixed nm c <> nm.
+Proof.
+  unfold suffixed. intro H. apply (f_equal (@length Z)) in H. rewrite app_length in H. cbn in H. lia.
+Qed.
+
+Lemma fresh_stuck : forall fuel nm cand cnt used,
+  mem (fst (fresh fuel nm cand cnt used)) used = true ->
+  mem cand used = true /\
+  forall i, (1 <= i <= fuel)%nat -> mem (suffixed nm (cnt + Z.of_nat i)) used = true.
+Proof.
+  induction fuel as [|f IH]; intros nm cand cnt used H.
+  - cbn in H. split; [exact H|]. intros i Hi. lia.
+  - cbn [fresh] in H. destruct (mem cand used) eqn:E.
+    + apply IH in H. destruct H as [H1 H2]. split; [reflexivity|].
+      intros i Hi. destruct (Nat.eq_dec i 1) as [->|Hn].
+      * exact H1.
+      * replace (cnt + Z.of_nat i) with (cnt + 1 + Z.of_nat (i - 1)) by lia.
+        apply H2. lia.
+    + cbn in H. congruence.
+Qed.
+
+(* the fuel the model supplies always suffices: the name chosen is unused *)
+Lemma fresh_free nm c used :
+  mem (fst (fresh (S (length used)) nm nm c used)) used = false.
+Proof.
+  destruct (mem (fst (fresh (S (length used)) nm nm c used)) used) eqn:E; [|reflexivity].
+  exfalso. apply fresh_stuck in E. destruct E as [_ H].
+  set (L := map (fun i => suffixed nm (c + Z.of_nat i)) (seq 1 (S (length used)))).
+  assert (HN : NoDup L).
+  { apply Injective_map_NoDup; [|apply seq_NoDup].
+    intros i j Hij. apply suffixed_inj in Hij. lia. }
+  assert (HI : incl L used).
+  { intros x Hx. apply in_map_iff in Hx. destruct Hx as [i [<- Hi]]. apply in_seq in Hi.
+    apply mem_In. apply H. lia. }
+  pose proof (NoDup_incl_length HN HI) as Hlen.
+  unfold L in Hlen. rewrite map_length, seq_length in Hlen. lia.
+Qed.
+
+Lemma fresh_shape : forall fuel nm cand cnt used,
+  fst (fresh fuel nm cand cnt used) = cand \/ exists k, fst (fresh fuel nm cand cnt used) = suffixed nm k.
+Proof.
+  induction fuel as [|f IH]; intros nm cand cnt used; cbn [fresh].
+  - left. reflexivity.
+  - destruct (mem cand used).
+    + right. destruct (IH nm (suffixed nm (cnt + 1)) (cnt + 1) used) as [H|[k H]]; eauto.
+    + left. reflexivity.
+Qed.
+
+Lemma uniq_loop_inv : forall names cnts used,
+  NoDup (uniq_loop names cnts used) /\
+  forall x, In x (uniq_loop names cnts used) -> ~ In x used.
+Proof.
+  induction names as [|nm r IH]; intros cnts used; cbn [uniq_loop].
+  - split; [constructor|]. intros x [].
+  - pose proof (fresh_free nm (count_of cnts nm) used) as Hf.
+    destruct (fresh (S (length used)) nm nm (count_of cnts nm) used) as [out c] eqn:E.
+    cbn [fst] in Hf. apply mem_false_not_In in Hf.
+    destruct (IH (set_count cnts nm c) (out :: used)) as [IH1 IH2].
+    split.
+    + constructor; [|exact IH1]. intro Hin. apply IH2 in Hin. apply Hin. left. reflexivity.
+    + intros x [Hx|Hx].
+      * subst. exact Hf.
+      * intro Hu. apply IH2 in Hx. apply Hx. right. exact Hu.
+Qed.
+
+Lemma uniq_loop_length : forall names cnts used, length (uniq_loop names cnts used) = length names.
+Proof.
+  induction names as [|nm r IH]; intros cnts used; cbn [uniq_loop]; [reflexivity|].
+  destruct (fresh (S (length used)) nm nm (count_of cnts nm) used) as [out c]. cbn. rewrite IH. reflexivity.
+Qed.
+
+Lemma uniq_loop_id : forall names cnts used,
+  NoDup names -> (forall x, In x names -> ~ In x used) -> uniq_loop names cnts used = names.
+Proof.
+  induction names as [|nm r IH]; intros cnts used Hnd Hu; cbn [uniq_loop]; [reflexivity|].
+  assert (Hm : mem nm used = false) by (apply mem_false_not_In; apply Hu; left; reflexivity).
+  cbn [fresh]. rewrite Hm. inversion Hnd as [|? ? Hnin Hnd']; subst.
+  f_equal. apply IH; [exact Hnd'|].
+  intros x Hx [Hc|Hc]; [subst; contradiction|]. apply (Hu x); [right; exact Hx|exact Hc].
+Qed.
+
+Definition derived_from (a b : name) : Prop := b = a \/ exists k, b = suffixed a k.
+
+Lemma uniq_loop_derived : forall names cnts used,
+  Forall2 derived_from names (uniq_loop names cnts used).
+Proof.
+  induction names as [|nm r IH]; intros cnts used; cbn [uniq_loop]; [constructor|].
+  pose proof (fresh_shape (S (length used)) nm nm (count_of cnts nm) used) as Hs.
+  destruct (fresh (S (length used)) nm nm (count_of cnts nm) used) as [out c]. cbn [fst] in Hs.
+  constructor; [exact Hs|apply IH].
+Qed.
+
+Theorem unique_names_nodup_lemma : forall names,
+  NoDup (unique_names names)
+  /\ length (unique_names names) = length names
+  /\ Forall2 derived_from names (unique_names names)
+  /\ (NoDup names -> unique_names names = names).
+Proof.
+  intro names. unfold unique_names. split; [apply uniq_loop_inv|].
+  split; [apply uniq_loop_length|]. split; [apply uniq_loop_derived|].
+  intro H. apply uniq_loop_id; [exact H|]. intros x _ [].
+Qed.
+
+Definition a_ : name := [97].
+Example legacy_suffix_collision_refuted_lemma :
+  legacy_unique_names [a_; a_; suffixed a_ 1] = [a_; suffixed a_ 1; suffixed a_ 1]
+  /\ ~ NoDup (legacy_unique_names [a_; a_; suffixed a_ 1])
+  /\ unique_names [a_; a_; suffixed a_ 1] = [a_; suffixed a_ 1; suffixed (suffixed a_ 1) 1].
+Proof.
+  split; [vm_compute; reflexivity|]. split; [|vm_compute; reflexivity].
+  intro H. vm_compute in H. inversion H as [|? ? ? H2]; subst.
+  inversion H2 as [|? ? Hn _]; subst. apply Hn. left. reflexivity.
+Qed.
+
+(* soundness of the boolean name checks *)
+Lemma nodupb_sound l : nodupb l = true -> NoDup l.
+Proof.
+  induction l as [|a r IH]; cbn; intro H; [constructor|].
+  apply andb_true_iff in H. destruct H as [H1 H2]. constructor; [|apply IH; exact H2].
+  apply mem_false_not_In. destruct (mem a r); [discriminate|reflexivity].
+Qed.
+
+Lemma nodupb_complete l : NoDup l -> nodupb l = true.
+Proof.
+  induction 1 as [|a r Hn _ IH]; cbn; [reflexivity|].
+  apply mem_false_not_In in Hn. rewrite Hn, IH. reflexivity.
+Qed.
+
+Lemma names_eqb_spec a b : names_eqb a b = true <-> a = b.
+Proof. apply list_eqb_spec. apply name_eqb_spec. Qed.
+
+Lemma names_unique_ok_sound inp out :
+  names_unique_ok inp out = true ->
+  length inp = length out /\ NoDup out /\ (NoDup inp -> out = inp).
+Proof.
+  unfold names_unique_ok. intro H.
+  apply andb_true_iff in H. destruct H as [H H4].
+  apply andb_true_iff in H. destruct H as [H H3].
+  apply andb_true_iff in H. destruct H as [H1 H2].
+  split; [apply Nat.eqb_eq; exact H1|]. split; [apply nodupb_sound; exact H2|].
+  intro Hnd. apply nodupb_complete in Hnd. rewrite Hnd in H4. apply names_eqb_spec in H4. congruence.
+Qed.
+
+(* ---------- reading -------------------------------------------------------- *)
+
+Section FileProofs.
+  Variable tok : Type.
+  Variable fl : Type.
+  Variable text : tok -> list Z.
+  Variable parse : tok -> option fl.
+
+  Notation line := (list tok).
+  Notation parse_cells := (parse_cells tok fl parse).
+  Notation iterate := (iterate tok fl text parse).
+
+  (* cells stay in their columns: value j is the parse of cell j *)
+  Lemma parse_cells_spec : forall cs vs,
+    parse_cells cs = Some vs <-> map parse cs = map Some vs.
+  Proof.
+    induction cs as [|c r IH]; intros vs; cbn.
+    - split; intro H; [inversion H; reflexivity|]. destruct vs; [reflexivity|discriminate].
+    - destruct (parse c) as [v|] eqn:Ec.
+      + destruct (parse_cells r) as [ws|] eqn:Er.
+        * split; intro H.
+          -- inversion H; subst. cbn. f_equal. apply IH. reflexivity.
+          -- destruct vs as [|v' vs']; [discriminate|]. cbn in H. inversion H; subst.
+             f_equal. f_equal. apply IH in H2. congruence.
+        * split; intro H; [discriminate|].
+          destruct vs as [|v' vs']; [discriminate|]. cbn in H. inversion H as [[H1 H2]].
+          apply IH in H2. discriminate.
+      + split; intro H; [discriminate|]. destruct vs; cbn in H; discriminate.
+  Qed.
+
+  Lemma parse_cells_none : forall cs,
+    parse_cells cs = None <-> exists c, In c cs /\ parse c = None.
+  Proof.
+    induction cs as [|c r IH]; cbn.
+    - split; [discriminate|intros [c [[] _]]].
+    - destruct (parse c) as [v|] eqn:Ec.
+      + destruct (parse_cells r) as [ws|] eqn:Er.
+        * split; [discriminate|]. intros [c' [[->|Hin] Hn]]; [congruence|].
+          assert (@None (list fl) = None) as _ by reflexivity.
+          destruct IH as [_ IH2]. discriminate IH2. exists c'. split; assumption.
+        * split; [|reflexivity]. intros _. destruct IH as [IH1 _].
+          destruct (IH1 eq_refl) as [c' [Hin Hn]]. exists c'. split; [right; exact Hin|exact Hn].
+      + split; [|reflexivity]. intros _. exists c. split; [left; reflexivity|exact Ec].
+  Qed.
+
+  Definition row_sel (sel : option (list name)) (l : line) : bool :=
+    match l with [] => false | s :: _ => selected sel (text s) end.
+  Definition row_rec (l : line) : option (name * list fl) :=
+    match l with
+    | [] => None
+    | s :: cells => match parse_cells cells with Some vs => Some (text s, vs) | None => None end
+    end.
+  Fixpoint somes {A} (l : list (option A)) : list A :=
+    match l with [] => [] | Some a :: r => a :: somes r | None :: r => somes r end.
+  Fixpoint nones {A} (l : list (option A)) : Z :=
+    match l with [] => 0 | Some _ :: r => nones r | None :: r => nones r + 1 end.
+
+  (* row skipping never shifts other rows or columns: the records are exactly the
+     selected rows all of whose cells parse, in file order, each with its own
+     first field and its own values; one error per skipped row *)
+  Lemma iterate_spec : forall sel ls,
+    (forall l, In l ls -> l <> []) ->
+    iterate sel ls =
+      Ok (somes (map row_rec (filter (row_sel sel) ls)), nones (map row_rec (filter (row_sel sel) ls))).
+  Proof.
+    intros sel. induction ls as [|l r IH]; intro Hnb; [reflexivity|].
+    assert (Hr : forall l0, In l0 r -> l0 <> []) by (intros; apply Hnb; right; assumption).
+    specialize (IH Hr).
+    destruct l as [|s cells]; [exfalso; apply (Hnb []); [left|]; reflexivity|].
+    cbn [C15_Model.iterate filter row_sel].
+    destruct (selected sel (text s)) eqn:Es.
+    - cbn [map row_rec]. destruct (parse_cells cells) as [vs|] eqn:Ep; rewrite IH; reflexivity.
+    - exact IH.
+  Qed.
+
+  (* leading comment lines (starting with "#" but not with "#IID") are skipped, at any
+     number, and the first other line is the header *)
+  Definition comment_line (l : line) : bool :=
+    match l with
+    | [] => false
+    | f :: _ => starts_with hash (text f) && negb (starts_with IID (text f))
+    end.
+
+  Lemma find_header_skips : forall comments header body,
+    Forall (fun l => comment_line l = true) comments ->
+    header <> [] -> comment_line header = false ->
+    find_header tok text (comments ++ header :: body) = Ok (header, body).
+  Proof.
+    induction comments as [|c r IH]; intros header body Hc Hne Hh.
+    - cbn [app find_header]. destruct header as [|f rest]; [contradiction|].
+      unfold comment_line in Hh. rewrite Hh. reflexivity.
+    - inversion Hc as [|? ? Hc1 Hc2]; subst. cbn [app find_header].
+      destruct c as [|f rest]; [discriminate|]. unfold comment_line in Hc1. rewrite Hc1. apply IH; assumption.
+  Qed.
+
+  (* the whole reader on a file with comment lines, a header of >= 2 fields and a body
+     without blank lines: names from the header, records = the selected numeric rows *)
+  Lemma pheno_read_spec : forall sel comments header body,
+    Forall (fun l => comment_line l = true) comments ->
+    comment_line header = false -> (2 <= length header)%nat ->
+    (forall l, In l body -> l <> []) ->
+    let recs := somes (map row_rec (filter (row_sel sel) body)) in
+    recs <> [] -> rectangular (map snd recs) = true ->
+    pheno_read tok fl text parse sel (comments ++ header :: body)
+    = Ok (mkt (map fst recs) (map text (tl header)) (map snd recs),
+          nones (map row_rec (filter (row_sel sel) body))).
+  Proof.
+    intros sel comments header body Hc Hh Hlen Hnb recs Hne Hrect.
+    unfold pheno_read. rewrite find_header_skips; [|exact Hc| |exact Hh].
+    - cbn [bind]. apply Nat.ltb_ge in Hlen. rewrite Hlen. rewrite iterate_spec by exact Hnb.
+      cbn [bind]. fold recs. destruct recs as [|r0 rs] eqn:E; [contradiction|].
+      rewrite Hrect. reflexivity.
+    - intro H0. subst. cbn in Hlen. lia.
+  Qed.
+
+  Variable fmt : fl -> tok.
+  Variable word : list Z -> tok.
+  Hypothesis parse_fmt : forall x, parse (fmt x) = Some x.
+  Hypothesis text_word : forall s, text (word s) = s.
+
+  Lemma parse_cells_fmt : forall row, parse_cells (map fmt row) = Some row.
+  Proof.
+    induction row as [|x r IH]; cbn; [reflexivity|]. rewrite parse_fmt, IH. reflexivity.
+  Qed.
+
+  Lemma iterate_written : forall rows : list (name * list fl),
+    iterate None (map (fun '(s, row) => word s :: map fmt row) rows) = Ok (rows, 0).
+  Proof.
+    induction rows as [|[s row] r IH]; [reflexivity|].
+    cbn [map C15_Model.iterate selected]. rewrite parse_cells_fmt, IH. cbn. rewrite text_word. reflexivity.
+  Qed.
+
+  Lemma map_snd_combine {A B} : forall (a : list A) (b : list B),
+    length a = length b -> map snd (combine a b) = b.
+  Proof.
+    induction a as [|x r IH]; intros [|y s] H; cbn in *; try discriminate; [reflexivity|].
+    f_equal. apply IH. lia.
+  Qed.
+  Lemma map_fst_combine {A B} : forall (a : list A) (b : list B),
+    length a = length b -> map fst (combine a b) = a.
+  Proof.
+    induction a as [|x r IH]; intros [|y s] H; cbn in *; try discriminate; [reflexivity|].
+    f_equal. apply IH. lia.
+  Qed.
+
+  (* write then read: same samples, unique_names of the names, the same cells *)
+  Lemma pheno_roundtrip_lemma : forall t : table fl,
+    length (t_samples t) = length (t_data t) ->
+    t_data t <> [] -> t_names t <> [] ->
+    rectangular (t_data t) = true ->
+    pheno_read tok fl text parse None (pheno_write tok fl fmt word t)
+    = Ok (mkt (t_samples t) (unique_names (t_names t)) (t_data t), 0).
+  Proof.
+    intros [sm nm dt] Hlen Hd Hn Hrect. cbn [t_samples t_names t_data] in *.
+    unfold pheno_read, pheno_write. cbn [t_samples t_names t_data find_header].
+    rewrite text_word.
+    change (starts_with hash IID && negb (starts_with IID IID)) with false. cbn [bind].
+    assert (Hl : (length (word IID :: map word (unique_names nm)) <? 2)%nat = false).
+    { apply Nat.ltb_ge. destruct (unique_names_nodup_lemma nm) as [_ [Hlen' _]].
+      destruct nm as [|n0 nr]; [contradiction|].
+      change (length (word IID :: map word (unique_names (n0 :: nr))))
+        with (S (length (map word (unique_names (n0 :: nr))))).
+      rewrite map_length. unfold name in *. rewrite Hlen'. cbn [length]. lia. }
+    rewrite Hl. rewrite iterate_written. cbn [bind].
+    destruct (combine sm dt) as [|p rest] eqn:Ec.
+    - destruct sm, dt; cbn in *; try discriminate; contradiction.
+    - rewrite <- Ec. rewrite map_snd_combine, map_fst_combine by exact Hlen. rewrite Hrect.
+      cbn [tl]. rewrite map_map.
+      rewrite (map_ext (fun x => text (word x)) (fun x => x)) by apply text_word.
+      rewrite map_id. reflexivity.
+  Qed.
+End FileProofs.
+
+(* ---------- table operations ---------------------------------------------- *)
+
+Section OpsProofs.
+  Variable fl : Type.
+  Variable key : Type.
+  Variable key_eqb : key -> key -> bool.
+  Hypothesis key_eqb_eq : forall a b, key_eqb a b = true <-> a = b.
+  Variable d0 : fl.
+  Variable k0 : key.
+
+  Notation index_of := (index_of key key_eqb).
+  Notation positions := (positions key key_eqb).
+
+  Lemma index_of_spec : forall k l s i,
+    index_of k l s = Some i ->
+    (s <= i)%nat /\ nth_error l (i - s) = Some k /\ forall j, (j < i - s)%nat -> nth_error l j <> Some k.
+  Proof.
+    intros k. induction l as [|a r IH]; intros s i H; cbn in H; [discriminate|].
+    destruct (key_eqb a k) eqn:E.
+    - inversion H; subst. apply key_eqb_eq in E. subst. rewrite Nat.sub_diag.
+      split; [lia|]. split; [reflexivity|]. intros j Hj. lia.
+    - apply IH in H. destruct H as [H1 [H2 H3]]. split; [lia|].
+      replace (i - s)%nat with (S (i - S s)) by lia. split; [exact H2|].
+      intros [|j] Hj; cbn.
+      + intro Hc. inversion Hc; subst.
+        assert (key_eqb k k = true) by (apply key_eqb_eq; reflexivity). congruence.
+      + apply H3. lia.
+  Qed.
+
+  Lemma index_of_none : forall k l s, index_of k l s = None <-> ~ In k l.
+  Proof.
+    intros k. induction l as [|a r IH]; intros s; cbn.
+    - split; [intros _ []|reflexivity].
+    - destruct (key_eqb a k) eqn:E.
+      + apply key_eqb_eq in E. subst. split; [discriminate|]. intro H. exfalso. apply H. left. reflexivity.
+      + rewrite IH. split; intro H.
+        * intros [Hc|Hc]; [|contradiction]. subst.
+          assert (key_eqb k k = true) by (apply key_eqb_eq; reflexivity). congruence.
+        * intro Hc. apply H. right. exact Hc.
+  Qed.
+
+  Definition present (have : list key) (k : key) : bool :=
+    match index_of k have 0 with Some _ => true | None => false end.
+
+  (* requested order; every returned element is the element stored at the first
+     position holding the requested key *)
+  Lemma pick_positions {A} (d : A) (l : list A) (have : list key) : forall req,
+    Forall2 (fun k x => exists i, index_of k have 0 = Some i /\ x = nth i l d)
+            (filter (present have) req) (pick d l (positions req have)).
+  Proof.
+    induction req as [|k r IH]; cbn; [constructor|].
+    unfold present at 1. unfold C15_Model.positions in *. cbn [flat_map].
+    destruct (index_of k have 0) as [i|] eqn:E; cbn.
+    - constructor; [exists i; split; [exact E|reflexivity]|exact IH].
+    - exact IH.
+  Qed.
+
+  Lemma subset_samples_spec : forall req (t : tab fl key) t',
+    subset fl key key_eqb d0 k0 (Some req) None t = Ok t' ->
+    names t' = names t
+    /\ Forall2 (fun k s => exists i, index_of k (samples t) 0 = Some i /\ s = nth i (samples t) k0)
+               (filter (present (samples t)) req) (samples t')
+    /\ Forall2 (fun k row => exists i, index_of k (samples t) 0 = Some i /\ row = nth i (data t) [])
+               (filter (present (samples t)) req) (data t').
+  Proof.
+    intros req t t' H. unfold subset in H.
+    destruct (has_dup key key_eqb (samples t)); [discriminate|].
+    inversion H; subst; cbn [names samples data].
+    split; [reflexivity|]. split; apply pick_positions.
+  Qed.
+
+  Lemma subset_names_spec : forall req (t : tab fl key) t',
+    subset fl key key_eqb d0 k0 None (Some req) t = Ok t' ->
+    samples t' = samples t
+    /\ Forall2 (fun k n => exists i, index_of k (names t) 0 = Some i /\ n = nth i (names t) k0)
+               (filter (present (names t)) req) (names t')
+    /\ Forall2 (fun row row' =>
+          Forall2 (fun k x => exists i, index_of k (names t) 0 = Some i /\ x = nth i row d0)
+                  (filter (present (names t)) req) row')
+        (data t) (data t').
+  Proof.
+    intros req t t' H. unfold subset in H.
+    destruct (has_dup key key_eqb (names t)); [discriminate|].
+    inversion H; subst; cbn [names samples data].
+    split; [reflexivity|]. split; [apply pick_positions|].
+    clear H. induction (data t) as [|row r IH]; cbn; [constructor|].
+    constructor; [apply pick_positions|exact IH].
+  Qed.
+
+  Lemma append_spec_lemma : forall nm col (t : tab fl key),
+    length col = length (data t) ->
+    exists t', append fl key false nm col t = Ok t'
+      /\ samples t' = samples t /\ names t' = names t ++ [nm]
+      /\ length (data t') = length (data t)
+      /\ forall i row v, nth_error (data t) i = Some row -> nth_error col i = Some v ->
+                         nth_error (data t') i = Some (row ++ [v]).
+  Proof.
+    intros nm col t Hlen. unfold append. rewrite Hlen, Nat.eqb_refl.
+    eexists. split; [reflexivity|]. cbn [samples names data].
+    split; [reflexivity|]. split; [reflexivity|].
+    generalize dependent col. induction (data t) as [|r0 rs IH]; intros [|v0 vs] Hlen; cbn in *; try discriminate.
+    - split; [reflexivity|]. intros [|i]; discriminate.
+    - destruct (IH vs ltac:(lia)) as [IH1 IH2]. split; [rewrite IH1; reflexivity|].
+      intros [|i] row v Hr Hv; cbn in *.
+      + inversion Hr; inversion Hv; subst. reflexivity.
+      + apply IH2; assumption.
+  Qed.
+
+  Lemma append_mismatch : forall nm col (t : tab fl key),
+    length col <> length (data t) -> append fl key false nm col t = Err E_Value.
+  Proof.
+    intros nm col t H. unfold append. apply Nat.eqb_neq in H. rewrite H. reflexivity.
+  Qed.
+
+  Variable is9 : fl -> bool.
+
+  Lemma combine_split_id {A B} : forall l : list (A * B), combine (map fst l) (map snd l) = l.
+  Proof. induction l as [|[a b] r IH]; cbn; [reflexivity|]. rewrite IH. reflexivity. Qed.
+
+  Lemma check_missing_spec_lemma : forall discard (t : tab fl key),
+    let holding := existsb (row_missing fl is9) (data t) in
+    match check_missing fl key is9 discard t with
+    | Err _ => holding = true /\ discard = false
+    | Ok t' =>
+        names t' = names t
+        /\ (holding = false -> t' = t)
+        /\ (holding = true -> discard = true
+            /\ combine (samples t') (data t')
+               = filter (fun '(s, row) => negb (row_missing fl is9 row)) (combine (samples t) (data t)))
+    end.
+  Proof.
+    intros discard t. cbn zeta. unfold check_missing.
+    destruct (existsb (row_missing fl is9) (data t)) eqn:E.
+    - destruct discard.
+      + cbn [names samples data]. split; [reflexivity|]. split; [discriminate|].
+        intros _. split; [reflexivity|]. apply combine_split_id.
+      + split; reflexivity.
+    - split; [reflexivity|]. split; [reflexivity|discriminate].
+  Qed.
+End OpsProofs.
